@@ -144,7 +144,7 @@ func (t *buildTr) validateCall(c *ast.CallExpr) (string, bool) {
 		s, ty := t.expr(sel.X)
 		if ty != nil && ty.k == "orec" {
 			parts := strings.SplitN(strings.TrimSuffix(strings.TrimPrefix(s, "("), ")"), ", ", 2)
-			return "vOpt m " + parts[0] + " " + parts[1], true
+			return "vOpt m " + parts[0] + " (" + parts[1] + ")", true
 		}
 	}
 	if src(sel.X) == t.recv && len(c.Args) == 1 && (sel.Sel.Name == "ValidateForwardItems" || sel.Sel.Name == "ValidateReturnItems") {
@@ -259,7 +259,7 @@ func (t *buildTr) memberAssign(rec, field string, rhs ast.Expr) (string, bool) {
 		if sel, ok := rhs.(*ast.SelectorExpr); ok && sel.Sel.Name == field {
 			if s, ty := t.expr(sel.X); ty != nil && ty.k == "orec" && ty.kind == t.recs[rec] {
 				opt := strings.TrimSuffix(strings.SplitN(s, ", ", 2)[1], ")")
-				return fmt.Sprintf("let %s := %s.setS %s ((%s.map (·.s %s)).getD [])", rec, rec, leanStr(field), opt, leanStr(field)), true
+				return fmt.Sprintf("let %s := %s.setS %s (((%s).map (·.s %s)).getD [])", rec, rec, leanStr(field), opt, leanStr(field)), true
 			}
 		}
 	}
